@@ -217,6 +217,9 @@ class VArr(_np.ndarray):
                 raise Unsupported("store into a native array inside a guard context")
         _np.ndarray.__setitem__(self, key, value)
 
+    def round(self, decimals=0, out=None):
+        return round(self, decimals, out)
+
     def _store_selected(self, key, value):
         """a[sel] = v and a[sel, k] = v where sel is a guarded selection of row indices or a symbolic 1-d mask:
         candidate i is written iff its guard holds (in order, so a repeated index keeps the last write, as numpy does)."""
@@ -227,6 +230,18 @@ class VArr(_np.ndarray):
                 raise Unsupported("store through a symbolic selection combined with a non-scalar index")
         if self.dtype != object:
             raise Unsupported("store through a symbolic selection into a native array")
+        if not isinstance(key, GA) and not rest and _np.asarray(key).shape == self.shape and self.ndim > 1:
+            # a[mask] = scalar with an n-d symbolic mask of a's own shape: cell by cell
+            if isinstance(value, (GA, list, tuple)) or (isinstance(value, _np.ndarray) and value.ndim > 0):
+                raise Unsupported("store of an array through an n-d symbolic mask")
+            v = _lift(value[()] if isinstance(value, _np.ndarray) else value)
+            gnow = guard_now()
+            for idx in _np.ndindex(*self.shape):
+                g = SB.lift(_np.ndarray.__getitem__(_np.asarray(key), idx)) & gnow
+                if g.c is False:
+                    continue
+                _np.ndarray.__setitem__(self, idx, ite(g, v, _np.ndarray.__getitem__(self, idx)))
+            return
         if isinstance(key, GA):
             rows = [int(x) for x in _np.asarray(key.vals).flat]
             guards = key.guards
@@ -744,8 +759,19 @@ def _red_cells(cells, guards, name, initial=None):
 
 
 def _red(a, name, axis=None, initial=None, **kw):
-    if kw.get("where") is not None or kw.get("out") is not None:
-        raise Unsupported("reduction with where=/out=")
+    if kw.get("out") is not None:
+        raise Unsupported("reduction with out=")
+    wh = kw.pop("where", None)
+    if wh is not None and wh is not True:
+        # max/min over the cells the mask selects (numpy requires `initial` then): a guarded reduction
+        if axis is not None or isinstance(a, GA):
+            raise Unsupported("reduction with where= along an axis")
+        arr = _np.asarray(a if isinstance(a, _np.ndarray) else array(a))
+        w = _np.broadcast_to(_np.asarray(wh), arr.shape)
+        if initial is None:
+            raise ValueError("reduction operation '%s' does not have an identity, so to use a where mask one has to specify 'initial'"
+                             % ("maximum" if name == "max" else "minimum"))
+        return _red_cells([SV.lift(c) for c in arr.flat], [SB.lift(g) for g in w.flat], name, initial)
     if isinstance(a, GA):
         return _red_cells(_cells(a.vals), a.guards, name, initial)
     if isinstance(a, (list, tuple)):
@@ -828,6 +854,38 @@ def mean(a, axis=None, **kw):
 
 
 average = mean
+
+
+def var(a, axis=None, ddof=0, **kw):
+    """Population variance (numpy's default ddof=0): mean of squared deviations from the mean."""
+    if isinstance(a, (list, tuple)):
+        a = array(a)
+    arr = _np.asarray(a)
+    if not _is_obj(arr):
+        return _floatify_scalar(_np.var(arr, axis=axis, ddof=ddof, **kw)) if axis is None else _floatify(_np.var(arr, axis=axis, ddof=ddof, **kw))
+    if ddof != 0:
+        raise Unsupported("variance with ddof != 0")
+    if axis is None or arr.ndim == 1:
+        m = mean(a)
+        d = _W(arr) - m
+        return sum_(d * d) / arr.size
+    if arr.ndim != 2:
+        raise Unsupported("variance along an axis of an n-d array")
+    rows = arr if axis in (1, -1) else arr.T
+    out = _np.empty(rows.shape[0], dtype=object)
+    for i in range(rows.shape[0]):
+        out[i] = var(_W(rows[i]))
+    return _W(out)
+
+
+def std(a, axis=None, ddof=0, **kw):
+    v = var(a, axis=axis, ddof=ddof, **kw)
+    if isinstance(v, _np.ndarray):
+        out = _np.empty(v.shape, dtype=object)
+        for i, x in enumerate(v.flat):
+            out.flat[i] = sqrt(x)
+        return _W(out)
+    return sqrt(v)
 
 
 def all(a, axis=None, **kw):
@@ -1092,9 +1150,53 @@ def roll(a, shift, axis=None):
     return _W(_np.roll(_np.asarray(a), shift, axis))
 
 
+def _round_scalar(x, decimals):
+    """numpy's round-half-to-even at `decimals` decimals, in exact arithmetic (A1: numpy scales by 10**d in floats)."""
+    x = SV.lift(x)
+    scale = Fraction(10) ** int(decimals)
+    if x.c is not None:
+        return SV(c=Fraction(_b.round(x.c * scale)) / scale)        # Fraction.__round__ is half-to-even
+    y = x.zr() * z3.RealVal(str(scale))
+    fl = z3.ToInt(y)
+    f = z3.ToReal(fl)
+    frac = y - f
+    half = z3.RealVal("1/2")
+    r = z3.If(frac < half, f, z3.If(frac > half, f + 1, z3.If(fl % 2 == 0, f, f + 1)))
+    return SV(t=r / z3.RealVal(str(scale)))
+
+
+def round(a, decimals=0, out=None):          # noqa: A001  (numpy's name)
+    if out is not None:
+        raise Unsupported("np.round with out=")
+    if isinstance(a, GA):
+        return GA(round(a.vals, decimals), a.guards)
+    if isinstance(a, (SV, int, float, Fraction, _np.generic)) and not isinstance(a, bool):
+        if isinstance(a, (int, _np.integer)):
+            return a
+        return _round_scalar(a, decimals)
+    arr = _np.asarray(a if isinstance(a, _np.ndarray) else array(a))
+    if arr.dtype != object:
+        if arr.dtype.kind in "iub":
+            return _W(_np.round(arr, decimals))
+        arr = _obj(arr)
+    res = _np.empty(arr.shape, dtype=object)
+    for idx in _np.ndindex(*arr.shape):
+        res[idx] = _round_scalar(arr[idx], decimals)
+    if res.ndim == 0:
+        return res[()]
+    return _W(res)
+
+
+around = round_ = round
+
+
 def unique(a, **kw):
     if _is_obj(a):
-        raise Unsupported("np.unique of exact data")
+        cells = _cells(a)
+        if not _b.all(isinstance(c, SV) and c.c is not None for c in cells):
+            raise Unsupported("np.unique of symbolic data")
+        r = _np.unique(_np.array([float(c.c) for c in cells]).reshape(_np.asarray(a).shape), **kw)
+        return tuple(_floatify(x) for x in r) if isinstance(r, tuple) else _floatify(r)
     r = _np.unique(_np.asarray(a), **kw)
     return tuple(_W(x) for x in r) if isinstance(r, tuple) else _W(r)
 
